@@ -144,6 +144,6 @@ theorem resolve_is_generated (k : OpK) (hk : k = .and ∨ k = .or ∨ k = .bool)
   | orange k' a i l => cases k' <;> simp [genResolve, genCopy, Visits.copy_From, Visits.copy_To, relabel, Lay.noName]
   | none l => simp [genResolve, genCopy, Visits.copy_NoneItem, relabel, Lay.noName]
 
-theorem visit_names_complete : Visits.visitNames.length = 20 + 9 := by decide
+theorem visit_names_complete : Visits.visitNames.length = 20 + 9 + 6 + 3 := by decide
 
 end Luqum.Props.GenVisit
